@@ -25,3 +25,8 @@ claim("C09", "DESIGN.md §3 C09",
       "For all configurations: duration comparison operators spell their constants; state vocabulary and per-command default; match-time regexps built only through strictRegex whose wrapper must group the pattern (known finding: it does not); label conditions iterate Entry.Labels() which merges group labels in every case; all nine Match fields influence Match.IsMatch; in isMatch a matching ignore block only leads to return false and return true is reachable only with no match blocks or after a match.",
       SA_NOTE,
       "static analysis: operator/constant table agreement, constant-wrapper inspection of the regexp constructor, field-influence coverage, path queries on go/cfg")
+
+claim("C20", "DESIGN.md §3 C20",
+      "For all rule sets: only ErrorCheck and RuleDependencyCheck run on removed rules (the latter on nothing else); the dependency check sees the entry list only through nonRemovedEntries (drops removed/path-error/rule-error entries); the replacement test precedes the dependant scan on every path; dependants are de-duplicated and sorted before rendering and a problem needs a non-empty list; checkRules dispatches every check of GetChecksForEntry with the full entry list and skips only removed entries with errors; scanWorker forwards every problem; selector-name comparisons honour {__name__=...}.",
+      SA_NOTE,
+      "static analysis: Meta() table extraction over all RuleChecker implementers, use-only-through-filter check, must-pass-through and dominance on go/cfg (also inside the dispatch goroutine literal), lexical guard analysis for continue statements")
